@@ -254,6 +254,18 @@ def check_selection(ctx: Ctx):
     assd_inner = prog.try_func("metrics.assd:_average_symmetric_surface_distance")
     if assd_inner:
         inner_quals.add(assd_inner.qual)
+    # the core function of a wrapper: whatever function of the metrics package it hands a (reference, prediction)
+    # pair to - also for a metric this table does not know
+    for rec in reg.values():
+        w = rec["kernel"]
+        if w is None:
+            continue
+        for c in prog.calls_in(w):
+            for h in prog.resolve_call(w, c):
+                if isinstance(h, Func) and h is not w and h.module.rel.startswith("metrics"):
+                    pn = [p.name.lower() for p in h.call_params]
+                    if any(x.startswith("ref") for x in pn) and any(x.startswith("pred") for x in pn):
+                        inner_quals.add(h.qual)
     n_wr = 0
     for member, rec in sorted(reg.items()):
         w = rec["kernel"]
@@ -393,6 +405,7 @@ def check(ctx: Ctx):
     from . import c03 as _c03
 
     _c03._guarded(ctx, "R15.8", _c15.check_param_aliasing)
+    _c03._guarded(ctx, "R15.8", _c15.check_kernel_purity)
 
 
 _D = "panoptica/metrics/dice.py"
